@@ -459,6 +459,13 @@ class ExprMixin:
                 r = a.t == b.t
             elif isinstance(a, Cell) and isinstance(b, Cell):
                 r = a is b
+            elif isinstance(a, SV) and isinstance(b, SV) and {a.ty.name, b.ty.name} == {"Ref", "Opt"} \
+                    and (a.ty.args[0] if a.ty.name == "Opt" else b.ty.args[0]).name == "Ref":
+                o, x = (a, b) if a.ty.name == "Opt" else (b, a)
+                so = sort_of(o.ty)
+                r = z3.And(z3.Not(so.is_none(o.t)), so.val(o.t) == x.t)
+            elif isinstance(a, SV) and isinstance(b, SV) and a.ty.name == "Opt" and b.ty == a.ty and a.ty.args[0].name == "Ref":
+                r = a.t == b.t
             else:
                 raise Unsupported(f"`is` on {a!r}, {b!r}")
             return r if isinstance(op, ast.Is) else self._not(r)
